@@ -13,7 +13,9 @@ RULE = ("real HasTraits classes for the four prefix styles (same name, explicit 
         "DelegatesTo / PrototypedFrom, chains of length <= 3 (incl. DelegatesTo through PrototypedFrom and the "
         "reverse, renaming at every level, '*' chains with equal / different class prefixes), SUBCLASSES of the "
         "deferring class (inheriting __prefix__ without restating it, restating it, overriding it, overriding an "
-        "attribute, RE-DECLARING an inherited deferring attribute under the same name with another prefix / style / "
+        "attribute; target traits with comparison mode none / identity / equality and a value pool with equal-but-"
+        "distinct objects (1 == 1.0 == True, equal tuples / lists, floats equal to the int defaults; values are "
+        "object identities, `==` is a parameter of the model); RE-DECLARING an inherited deferring attribute under the same name with another prefix / style / "
         "kind; instances of base and subclasses side by side, sharing the target objects) and malformed shapes "
         "(missing target, '*' without / with empty __prefix__); seeded random histories of 1-12 operations after a "
         "bottom-up / top-down / partial / absent wiring of the chain: assign through any object and attribute "
@@ -23,7 +25,7 @@ RULE = ("real HasTraits classes for the four prefix styles (same name, explicit 
         "object of every forwarder are compared with the Lean model; corpus: the witness histories of the Lean "
         "refutations (F18-F20), the `del`-raises-after-deleting branches, chains of 99 / 100 / 101 levels (the "
         "100-step recursion limit); quick: 2000 histories for each of the 8 style x kind shapes + 500 for each of 8 "
-        "chain shapes and 5 subclass shapes + 150 for each of 3 malformed shapes, thorough: 6250 / 3000 / 1000; a case is non-trivial when "
+        "chain shapes, 5 subclass shapes and 3 comparison-mode shapes + 150 for each of 3 malformed shapes, thorough: 6250 / 3000 / 1000; a case is non-trivial when "
         "some operation changed a value or the forwarder table, raised, or produced an event; distinct = distinct "
         "case line")
 TRUSTED = [
@@ -33,12 +35,14 @@ TRUSTED = [
     "ListenerItem.active and the number of swallowed handler exceptions after every operation",
     "validators are parameters (validator number, operation index, value); the driver instantiates id / mod7 / "
     "rejneg / failat",
-    "values are small ints (identity == equality, so the identity test of setattr_trait and the equality test of "
-    "_change_accepted coincide)",
+    "values are object identities (small interned ints, plus a pool of fixed equal-but-distinct objects); "
+    "Python's == on the pool is a table given to the model as the parameter Env.eqv",
 ]
 ASSUMPTIONS = [
     "every declared attribute of every object carries an on_trait_change and an observe handler (so the notifier "
     "branches of setattr_trait are always taken)",
+    "every declared typed attribute has been read (the snapshot after every operation does), so its default is "
+    "materialised in __dict__: `del` of a never-assigned attribute with comparison mode none reports (default, default)",
     "the delegate graph stays acyclic (reading through a cycle raises RecursionError since fix ec4908f of finding "
     "F21 — before, it killed the interpreter — and is probed in a subprocess); operations that would close a "
     "cycle are skipped on both sides",
@@ -72,6 +76,11 @@ def corpus():
         # (base class's) targets and of the NEW targets, seen from a base instance (0) and subclass instances (1, 2)
         mk("redeclare", "id,id", "sw 0 4;sw 1 4;sw 2 4;sw 3 4;st 4 x 6;st 4 val 7;st 4 p_z 1;st 4 z 2;st 4 p_y 3;"
                                  "st 4 q_x 4;st 4 other 5;st 4 p_x 8;st 1 x 9;st 1 z 0;dl 1 z;st 2 z 6"),
+        # comparison modes identity / none / equality of the target and equal-but-distinct values (1, 1.0=100,
+        # True=101, 3.0=104): on the delegate, through the deferring attribute, first local prototype assignment
+        mk("cmp-D", "id,id", "sw 0 2;st 2 a 100;st 2 a 101;st 2 a 101;st 2 b 104;st 2 b 104;st 2 c 104;st 2 c 100;"
+                             "st 0 a 1;st 0 b 104;st 0 c 101;st 0 pa 100;st 0 pa 100"),
+        mk("cmp-P", "id,id", "sw 0 2;st 0 a 104;st 0 b 105;st 0 c 104;dl 0 a;st 2 a 104;st 0 a 104;st 0 dc 104"),
         # prototype life cycle
         mk("same-P", "rejneg,id", "sw 1 2;sw 0 1;st 2 x 4;st 0 x -1;st 0 x 6;st 2 x 5;dl 0 x;st 2 x 8;sw 0 3;st 3 x 9"),
         # the 100-step recursion limit of setattr_delegate / base_trait: chains of 99, 100, 101 deferring levels
@@ -102,7 +111,7 @@ def generate(rng, tier):
     for shape in D.ODD_SHAPES:
         for _ in range(n_odd):
             yield D.random_history(rng, shape)
-    for shape in D.SUB_SHAPES:
+    for shape in D.SUB_SHAPES + D.CMP_SHAPES:
         for _ in range(n_chain):
             yield D.random_history(rng, shape)
 
@@ -229,6 +238,22 @@ class Oracle:
         # -- the write clauses, and the bookkeeping of broken prototype links
         if k == "st" and exc is None and opa is not None and opa.kind in ("D", "P"):
             self.check_write(op, opa, opcfg, before, after)
+        # -- a local assignment of a prototyped attribute is reported to its handlers with (old, new) whenever
+        #    the new value is another object than the one read before (equal or not), or the prototype's trait
+        #    has comparison mode none; assigning the very same object again is silent
+        if k == "st" and exc is None and opa is not None and opa.kind == "P" and opcfg:
+            levels, end = self.chain(op[1], opa)
+            if end[0] == "T":
+                old, new = before[(op[1], op[2])], after[(op[1], op[2])]
+                got = [(e[2], e[3]) for e in events if e[0] == op[1] and e[1] == op[2]]
+                if end[2].cmp == "n" or old != new:
+                    if got != [(old, new)]:
+                        self.hit("prototype-assign-not-notified", opcfg, "local assignment of a prototyped attribute "
+                                 "changed its value to another object but its handlers did not get exactly (old, new)",
+                                 obj=op[1], name=op[2], old=old, new=new, mode=end[2].cmp, own_events=str(got))
+                elif got:
+                    self.hit("prototype-assign-spurious-event", opcfg, "assigning the very same object again notified",
+                             obj=op[1], name=op[2], own_events=str(got))
         if k == "dl" and opa is not None and opa.kind == "P" and (exc is None or not w.local(op[1], op[2])):
             self.local.pop((op[1], op[2]), None)
         for o, a in self.deferring():
@@ -371,7 +396,7 @@ def run_impl(case):
             exc, res = None, "ok"
             try:
                 if k == "st":
-                    setattr(w.objs[op[1]], op[2], op[3])
+                    setattr(w.objs[op[1]], op[2], w.obj(op[3]))
                 elif k == "dl":
                     delattr(w.objs[op[1]], op[2])
                 elif k == "sw":
